@@ -15,3 +15,4 @@ def run(ck):
     image.r20_6_region_reinit(ck, P)
     image.r_no_dangling_after_free(ck, P, 'C15-R8')
     alloc.r9_failure_is_atomic(ck, P)
+    alloc.r10_cleanup_count_is_fresh(ck, P)
